@@ -4,6 +4,7 @@
    the package-level state taken through the verif hook (zz_verif_c16.go).  [mismatches16] returns the
    indices of the cases on which the model (Glob/OpenApiState.v) disagrees at some step. *)
 From KV Require Export Base.Prelude Glob.OpenApiState.
+From KV Require Gen.OpenApiTables.
 
 Inductive op16 :=
 | PSet (fver : option string) (sch : option schema) (reset : bool)
@@ -47,7 +48,10 @@ Record case16 := mk16 {
   c_names : list string;
   c_tms : list tm;
   c_first : snap16;            (* snapshot before the first step *)
-  c_steps : list step16
+  c_steps : list step16;
+  c_precomp : list (string * string * bool)
+                               (* runtime value of precomputedIsNamespaceScoped read through the hook ([] = not
+                                  recorded in this case): must equal the translated table Gen/OpenApiTables.v *)
 }.
 
 (* ---------- model snapshot ---------- *)
@@ -155,9 +159,21 @@ Fixpoint run_steps (e : env) (names : list string) (tms : list tm) (s : ost) (l 
       ok && snap_eqb (model_snap names tms s1) (st_snap st) && run_steps e names tms s1 t
   end.
 
+Definition row_eqb (a b : string * string * bool) : bool :=
+  String.eqb (fst (fst a)) (fst (fst b)) && String.eqb (snd (fst a)) (snd (fst b)) && Bool.eqb (snd a) (snd b).
+Definition rows_subset (a b : list (string * string * bool)) : bool :=
+  forallb (fun x => existsb (row_eqb x) b) a.
+Definition precomp_agree (l : list (string * string * bool)) : bool :=
+  match l with
+  | [] => true
+  | _ => rows_subset l Gen.OpenApiTables.gen_precomputed_ns && rows_subset Gen.OpenApiTables.gen_precomputed_ns l
+         && Nat.eqb (List.length l) (List.length Gen.OpenApiTables.gen_precomputed_ns)
+  end.
+
 Definition agree16 (c : case16) : bool :=
   snap_eqb (model_snap (c_names c) (c_tms c) ost0) (c_first c)
-  && run_steps (c_env c) (c_names c) (c_tms c) ost0 (c_steps c).
+  && run_steps (c_env c) (c_names c) (c_tms c) ost0 (c_steps c)
+  && precomp_agree (c_precomp c).
 
 Fixpoint mism_from16 {A} (agree : A -> bool) (i : N) (l : list A) : list N :=
   match l with
